@@ -232,65 +232,139 @@ def strip_int(g, v):
     return v
 
 
+def _lang_root(f, v, depth=0):
+    """the pointer a value is derived from by loads of fields / GEPs / casts / integer conversions (the language table a flag or a word array belongs to)"""
+    while depth < 12:
+        if v['k'] == 'a' and f.params[v['n']]['ty'] == '%' + LANG_STRUCT + '*': return ('a', v['n'])
+        if v['k'] != 'i': break
+        i = f.insts[v['id']]
+        if (i.d.get('ty') or '') == '%' + LANG_STRUCT + '*' and i.op not in ('bitcast',): return ('i', i.id)
+        if i.op in ('load', 'getelementptr', 'bitcast', 'zext', 'sext', 'trunc'): v = i.ops[0]
+        elif i.op == 'icmp' and const_of(i.ops[1]) == 0: v = i.ops[0]
+        elif i.op == 'and' and const_of(i.ops[1]) is not None: v = i.ops[0]
+        else: break
+        depth += 1
+    return vk(v)
+
+
+def _field_of(P, f, v, depth=0):
+    """name of the language-table field a flag argument was loaded from"""
+    lf = P.field_table(LANG_STRUCT)
+    while v['k'] == 'i' and depth < 8:
+        i = f.insts[v['id']]
+        if i.op == 'load':
+            base, off = addr_base(f, i.ops[0])
+            return lf.get(off, (None,))[0]
+        if i.op in ('zext', 'sext', 'trunc'): v = i.ops[0]
+        elif i.op == 'icmp' and const_of(i.ops[1]) == 0: v = i.ops[0]
+        elif i.op == 'and' and const_of(i.ops[1]) is not None: v = i.ops[0]
+        else: break
+        depth += 1
+    return None
+
+
+def dispatch_map(ctx, cfg, P):
+    """(has_prefix, has_accents) -> comparator wrapper returned by get_comparer, by abstract evaluation on the four concrete flag combinations. get_comparer may take
+    the language table or the two flags (their roles are read off the call sites: which field each argument is loaded from). Returns (map, problems)"""
+    C = ctx.__dict__.setdefault('_dispatch', {})
+    if cfg in C: return C[cfg]
+    from .bitflow import Interp, State, Ptr, BV, Tag, Unmodelled
+    gc = P.fn('get_comparer')
+    wrappers, cmps = comparators(P)
+    lf = {n: (o, sz) for o, (n, sz) in P.field_table(LANG_STRUCT).items()}
+    seen = {}; problems = []
+    by_ptr = any(p_['ty'].endswith('*') for p_ in gc.params)
+    roles = {}
+    if not by_ptr:
+        for f in P.defined.values():
+            for i, t in P.calls(f):
+                if t == ('direct', gc.name):
+                    for n, a in enumerate(i.ops[:len(gc.params)]):
+                        fld = _field_of(P, f, a)
+                        if fld in ('has_prefix', 'has_accents'):
+                            if roles.get(n, fld) != fld: problems.append('get_comparer argument %d is fed from different flags at different call sites' % n)
+                            roles[n] = fld
+        if sorted(roles.values()) != ['has_accents', 'has_prefix']:
+            problems.append('the roles of the parameters of get_comparer could not be read off its call sites (%s)' % roles)
+            C[cfg] = (seen, problems, wrappers, cmps); return C[cfg]
+    for hp in (False, True):
+        for ha in (False, True):
+            I = Interp(P); st = State()
+            flags = {'has_prefix': hp, 'has_accents': ha}
+            if by_ptr:
+                st.mem.new('lang', 8, 0)
+                def hook(I_, st_, ptr, nbytes, inst, as_ptr, flags=flags):
+                    c0 = ptr.parts[0] if ptr.parts else ptr.coff()
+                    for nm, (o_, sz_) in lf.items():
+                        if o_ == c0 and nm in flags: return BV.const(int(flags[nm]), 8 * nbytes)
+                    raise Unmodelled('get_comparer reads the language table at offset %s' % c0)
+                st.mem.hooks = {'lang': hook}
+                args = [Ptr('lang', 0) if p_['ty'].endswith('*') else BV.const(0, p_['bits'] or 32) for p_ in gc.params]
+            else:
+                args = [BV.const(int(flags[roles[n]]), p_['bits'] or 8) if n in roles else BV.const(0, p_['bits'] or 32) for n, p_ in enumerate(gc.params)]
+            try:
+                outs = I.run(gc, args, st)
+            except Unmodelled as e:
+                problems.append('get_comparer(%s, %s): %s' % (hp, ha, e)); continue
+            tgt = None
+            if len(outs) == 1 and isinstance(outs[0].ret, Ptr) and outs[0].ret.obj.startswith('f:'): tgt = outs[0].ret.obj[2:]
+            if tgt is None or tgt not in P.defined:
+                problems.append('get_comparer(%s, %s) does not return a library function (%s)' % (hp, ha, str(outs[0].ret)[:60] if outs else None)); continue
+            seen[(hp, ha)] = tgt
+    C[cfg] = (seen, problems, wrappers, cmps)
+    return C[cfg]
+
+
 def dispatch(ctx, rep):
     for cfg in (ctx.configs('path') if ctx.tier == 'thorough' else ['NsS']):
         P = ctx.prog(cfg)
         if cfg not in rep.configs: rep.configs.append(cfg)
         gc = P.fn('get_comparer')
-        wrappers, cmps = comparators(P)
-        rep.rule('CMP-1', 'dispatch: get_comparer returns, for each (has_prefix, has_accents) combination of the language flags, the wrapper of the '
-                 'comparator with exactly those capabilities (prefix cut-off present iff has_prefix; accent-skip loops present iff has_accents); the prefix '
-                 'wrappers pass the constant 4; every word search obtains its comparator from get_comparer(lang) for the same lang it searches')
-        rep.instances(len(cmps), 2, 'comparator wrappers')
-        from .bitflow import Interp, State, Ptr, BV, Tag, Unmodelled
-        lf = {n: (o, sz) for o, (n, sz) in P.field_table(LANG_STRUCT).items()}
-        seen = {}
+        seen, problems, wrappers, cmps = dispatch_map(ctx, cfg, P)
+        rep.rule('CMP-1', 'dispatch: get_comparer, evaluated abstractly on the four (has_prefix, has_accents) combinations of the language flags, returns a comparator wrapper '
+                 'for each; that this wrapper implements exactly the matching rule of those flags is CMP-8 (where CMP-8 cannot decide: prefix cut-off present iff has_prefix, '
+                 'accent-skip loops present iff has_accents, prefix wrappers pass the constant 4); every word search obtains its comparator from get_comparer applied to the '
+                 'same language table it searches')
+        rep.instances(len(wrappers), 2, 'comparator wrappers')
         where = loc_gc(gc)
-        for hp in (False, True):
-            for ha in (False, True):
-                I = Interp(P); st = State(); st.mem.new('lang', 8, 0)
-                flags = {'has_prefix': hp, 'has_accents': ha}
-                reads = []
-                def hook(I_, st_, ptr, nbytes, inst, as_ptr, flags=flags, reads=reads):
-                    c0 = ptr.parts[0] if ptr.parts else ptr.coff()
-                    for nm, (o_, sz_) in lf.items():
-                        if o_ == c0 and nm in flags:
-                            reads.append(nm); return BV.const(int(flags[nm]), 8 * nbytes)
-                    raise Unmodelled('get_comparer reads the language table at offset %s' % c0)
-                st.mem.hooks = {'lang': hook}
-                outs = I.run(gc, [Ptr('lang', 0)], st)
-                tgt = None
-                if len(outs) == 1 and isinstance(outs[0].ret, Ptr) and outs[0].ret.obj.startswith('f:'): tgt = outs[0].ret.obj[2:]
-                if tgt is None or tgt not in cmps:
-                    rep.fail('get_comparer returns a comparator wrapper for flags (has_prefix=%s, has_accents=%s)' % (hp, ha), where, 'get_comparer(%s,%s)' % (hp, ha),
-                             detail=str(outs[0].ret) if outs else None); continue
-                g, call = cmps[tgt]
-                fe = features_of(P, g, call)
-                seen[(hp, ha)] = tgt
-                rep.check(fe['prefix'] == hp and fe['skip'] == ha,
-                          'flags (has_prefix=%s, has_accents=%s) select %s (prefix cut-off: %s, accent skipping: %s)' % (hp, ha, base_name(g.name), fe['prefix'], fe['skip']),
-                          where, 'get_comparer -> %s' % tgt, detail={'flags': flags, 'comparator': g.name, 'features': fe},
-                          sample={'has_prefix': hp, 'has_accents': ha, 'comparator': base_name(g.name), 'wrapper': tgt}, key='CMP-1|%s|%s' % (hp, ha))
-                if fe['prefix']:
-                    rep.check(fe['n'] == 4, 'prefix wrapper %s passes the constant 4' % tgt, call.loc, tgt, detail=fe['n'], key='CMP-1|n|%s' % tgt)
-        rep.check(set(seen) == {(True, True), (True, False), (False, True), (False, False)}, 'all four flag combinations are dispatched', loc_gc(gc), 'get_comparer',
-                  detail=sorted(map(str, seen)))
-        # every search site uses get_comparer(lang) for the lang it searches
+        for pr in problems:
+            rep.fail('get_comparer dispatches on the two language flags', where, 'get_comparer: %s' % pr[:120], detail=pr, key='CMP-1|eval|%s' % pr[:40])
+        rep.check(set(seen) == {(True, True), (True, False), (False, True), (False, False)} or bool(problems), 'all four flag combinations are dispatched', where, 'get_comparer',
+                  detail=sorted(map(str, seen)), sample={'dispatch': {str(k): v for k, v in seen.items()}})
+        comparator_semantics(ctx, rep, P, cfg, seen)
+        rep.rule('CMP-1', '')
+        from . import e7
+        for (hp, ha), tgt in sorted(seen.items()):
+            r = e7.comparator(ctx, cfg, P, tgt, hp, ha)
+            if r.decided: continue
+            if tgt not in cmps:
+                rep.notes.append('CMP-1: %s not in the recognised wrapper shape; capabilities not checked structurally' % tgt); continue
+            g, call = cmps[tgt]
+            fe = features_of(P, g, call)
+            rep.check(fe['prefix'] == hp and fe['skip'] == ha,
+                      'flags (has_prefix=%s, has_accents=%s) select %s (prefix cut-off: %s, accent skipping: %s)' % (hp, ha, base_name(g.name), fe['prefix'], fe['skip']),
+                      where, 'get_comparer -> %s' % tgt, detail={'comparator': g.name, 'features': fe}, key='CMP-1|%s|%s' % (hp, ha))
+            if fe['prefix']:
+                rep.check(fe['n'] == 4, 'prefix wrapper %s passes the constant 4' % tgt, call.loc, tgt, detail=fe['n'], key='CMP-1|n|%s' % tgt)
+        # every search site uses get_comparer of the language it searches
         ls = P.fn('lang_search')
         n = 0
         for f in P.defined.values():
             for i, t in P.calls(f):
-                if t == ('direct', ls.name):
-                    n += 1
-                    if len(i.ops) != 3 or not (ls.params[0]['ty'].endswith('polyseed_lang*') and ls.params[2]['ty'].endswith(')*')):
-                        rep.notes.append('CMP-1: lang_search has an unrecognised signature: the search-site rule is not applied'); continue
-                    cv = i.ops[2]; ci = inst_of(f, cv)
-                    ok = ci is not None and ci.op == 'call' and P.call_target(ci) == ('direct', gc.name) and ci.ops[0] == i.ops[0]
-                    rep.check(ok, 'search at %s uses get_comparer of the language it searches' % i.loc, i.loc, '%s search site' % base_name(f.name),
-                              sample={'site': i.loc}, key='CMP-1|site|%s' % base_name(f.name))
+                if t != ('direct', ls.name): continue
+                n += 1
+                cmp_args = [a for k, a in enumerate(i.ops[:len(ls.params)]) if ls.params[k]['ty'].endswith(')*')]
+                tab_args = [a for k, a in enumerate(i.ops[:len(ls.params)]) if ls.params[k]['ty'].endswith('*') and not ls.params[k]['ty'].endswith(')*') and ls.params[k]['ty'] not in ('i8*',)]
+                ci = inst_of(f, cmp_args[0]) if len(cmp_args) == 1 else None
+                if ci is None or ci.op != 'call' or P.call_target(ci) != ('direct', gc.name) or not tab_args:
+                    rep.notes.append('CMP-1: search site at %s not in a recognised shape: the same-language rule is not applied' % i.loc); continue
+                r1 = {_lang_root(f, a) for a in ci.ops[:len(gc.params)]} - {None}
+                r2 = {_lang_root(f, a) for a in tab_args} - {None}
+                ok = len(r1) == 1 and r1 == r2
+                rep.check(ok, 'search at %s uses get_comparer of the language it searches' % i.loc, i.loc, '%s search site' % base_name(f.name),
+                          detail={'comparer_from': sorted(map(str, r1)), 'table_from': sorted(map(str, r2))}, sample={'site': i.loc}, key='CMP-1|site|%s' % base_name(f.name))
         rep.instances(n, 1, 'word search sites')
         word_readers(ctx, rep, P, wrappers)
-        comparator_semantics(ctx, rep, P, cfg, seen)
 
 
 def comparator_semantics(ctx, rep, P, cfg, dispatch_map):
@@ -302,54 +376,82 @@ def comparator_semantics(ctx, rep, P, cfg, dispatch_map):
              'with; abstract states are merged at block entries until the fixpoint. A reference automaton consumes the same cells: with has_accents the non-ASCII bytes of both '
              'strings are ignored; the result must be 0 iff the strings are then equal or (has_prefix) the key is a prefix of the word at least 4 characters long, and otherwise '
              'have the sign of the first differing pair (end of string = NUL) under one byte order used throughout; no byte is read past a terminator, nothing is written')
+    from . import e7
     for (hp, ha), wname in sorted(dispatch_map.items()):
         f = P.defined[wname]
         where = loc_gc(f)
-        results = {}
-        for signed in (True, False):
-            ex = SA.Explorer(P, sat=SA.saturation_bound(P, [wname]), max_states=15000, max_seconds=25)
-            st = SA.State()
-            alpha = SA.alphabet_for(P, [wname], eq=(0,), order=(128,))
-            st.tapes = {'K': SA.Tape('K', alpha), 'E': SA.Tape('E', alpha)}
-            st.mem = {'argA': {'#size': 8, 0: ('p', 'K', 0)}, 'argB': {'#size': 8, 0: ('p', 'E', 0)}}
-            st.mon = SA.CmpMonitor(hp, ha, signed, 4)
-            st.frames = [SA.Frame(f, [('p', 'argA', 0), ('p', 'argB', 0)])]
-            bad = []
-            def on_ret(s_, ret, bad=bad):
-                if ret is None or ret[0] != 'c':
-                    bad.append({'problem': 'result is not a number'}); return
-                r = SA.sval(ret[1], ret[2]); sg = (r > 0) - (r < 0)
-                if s_.mon.verdict is None or sg != s_.mon.verdict:
-                    bad.append({'returned_sign': sg, 'reference': s_.mon.verdict, 'because': s_.mon.why, 'strings_by_class': SA.witness(s_), 'last_choices': s_.path[-6:]})
-            try:
-                ex.run(st, on_ret)
-                results[signed] = ('done', bad, ex)
-            except SA.Found as e:
-                results[signed] = ('found', e, ex)
-            except SA.Imprecise as e:
-                results[signed] = ('imprecise', str(e), ex)
+        r = e7.comparator(ctx, cfg, P, wname, hp, ha)
         cons = '%s (has_prefix=%s, has_accents=%s)' % (base_name(wname), hp, ha)
-        kinds = {k: v[0] for k, v in results.items()}
-        if any(v[0] == 'found' for v in results.values()):
-            e = [v[1] for v in results.values() if v[0] == 'found'][0]
+        if r.status == 'found':
+            e = r.exc
             rep.fail('%s: %s' % (cons, e.detail), e.loc, '%s: %s' % (base_name(wname), e.kind), detail={'kind': e.kind, 'detail': e.detail}, key='CMP-8|%s|%s' % (base_name(wname), e.kind))
-            continue
-        if all(v[0] == 'imprecise' for v in results.values()) or (any(v[0] == 'imprecise' for v in results.values()) and not any(v[0] == 'done' and not v[1] for v in results.values())):
-            why = [v[1] for v in results.values() if v[0] == 'imprecise'][0]
-            rep.notes.append('CMP-8 not decided for %s: %s' % (cons, why))
-            rep.ok('%s: outside the string abstraction (%s) - not decided, see notes' % (cons, why[:80]))
-            continue
-        good = [k for k, v in results.items() if v[0] == 'done' and not v[1]]
-        if good:
-            ex = results[good[0]][2]
+        elif r.status == 'imprecise':
+            rep.notes.append('CMP-8 not decided for %s: %s' % (cons, r.why))
+            rep.ok('%s: outside the string abstraction (%s) - not decided, the structural rules CMP-3 / CMP-6 / CUR-1 apply' % (cons, r.why[:80]))
+        elif r.status == 'ok':
+            ex = r.ex
             rep.check(True, '%s agrees with the reference matching rule on all string pairs (%s byte order; %d abstract states, %d partitions, %d distinct returns)' % (
-                cons, 'signed' if good[0] else 'unsigned', ex.nstates, ex.nforks, ex.nreturns), where, cons,
+                cons, r.extra.get('order'), ex.nstates, ex.nforks, ex.nreturns), where, cons,
                 sample={'comparator': base_name(wname), 'has_prefix': hp, 'has_accents': ha, 'abstract_states': ex.nstates, 'returns_checked': ex.nreturns}, key='CMP-8|%s' % base_name(wname))
         else:
-            done = [(k, v) for k, v in results.items() if v[0] == 'done']
-            k, v = min(done, key=lambda kv: len(kv[1][1]))
             rep.fail('%s agrees with the reference matching rule on all string pairs' % cons, where, '%s deviates from the matching rule' % base_name(wname),
-                     detail={'byte_order_assumed': 'signed' if k else 'unsigned', 'disagreements': len(v[1]), 'first': v[1][:2]}, key='CMP-8|%s' % base_name(wname))
+                     detail={'byte_order_assumed': r.extra.get('order'), 'disagreements': len(r.bad), 'first': r.bad[:2]}, key='CMP-8|%s' % base_name(wname))
+
+
+def ensure_semantics(ctx, cfg, P):
+    """run (cached) the semantic analyses of the string helpers so that the structural rules know where to stand down"""
+    from . import e7
+    try:
+        seen, problems, wrappers, cmps = dispatch_map(ctx, cfg, P)
+        for (hp, ha), tgt in seen.items(): e7.comparator(ctx, cfg, P, tgt, hp, ha)
+    except AnalysisBroken:
+        pass
+    for role in P.roles('tokeniser'): e7.tokeniser(ctx, cfg, P, role)
+    try: size = ctx.tables().str_size()
+    except AnalysisBroken: size = None
+    if size:
+        for role in P.roles('lazy'): e7.lazy(ctx, cfg, P, role, size)
+    for f, cur, src in writer_functions(P): e7.writer(ctx, cfg, P, f, cur, src)
+    return decided_functions(ctx, cfg, P)
+
+
+def writer_functions(P):
+    """the phrase writer(s), found by role: library functions called on the encoding side with a word / separator string of a language table and a cursor:
+    [(function, cursor parameter index, source parameter index)]"""
+    if hasattr(P, '_writers'): return P._writers
+    pts = P.points_to()
+    strs = set()
+    for g in P.globals.values():
+        if g['ty'] == '%' + LANG_STRUCT and 'init' in g and g['init']['k'] == 'struct':
+            ft = P.field_table(LANG_STRUCT)
+            for fl in g['init']['fields']:
+                nm = ft.get(fl['off'], ('',))[0]
+                if nm == 'words' and fl['v']['k'] == 'array': strs |= {('global', e['name']) for e in fl['v']['elems'] if e['k'] == 'gref'}
+                elif nm == 'separator' and fl['v']['k'] == 'gref': strs.add(('global', fl['v']['name']))
+    out = {}
+    enc = P.reachable_from(['polyseed_encode']) if 'polyseed_encode' in P.defined else set()
+    for fn in sorted(enc):
+        f = P.defined.get(fn)
+        if f is None: continue
+        for i, t in P.calls(f):
+            if t[0] != 'direct' or t[1] not in P.defined: continue
+            g = P.defined[t[1]]
+            src = [n for n, a in enumerate(i.ops[:len(g.params)]) if g.params[n]['ty'] == 'i8*' and a['k'] in ('i', 'a') and (pts.of(f, a) & strs)]
+            cur = [n for n, a in enumerate(i.ops[:len(g.params)]) if g.params[n]['ty'] == 'i8**']
+            if len(src) == 1 and len(cur) == 1: out[g.name] = (g, cur[0], src[0])
+    P._writers = list(out.values())
+    return P._writers
+
+
+def decided_functions(ctx, cfg, P):
+    """names of the functions whose behaviour on all strings the semantic analyses (CMP-8, TOK-1, LAZY-1, WRITER-1) decided - verified or refuted - in this
+    configuration; the structural idiom rules about the same functions stand down for them"""
+    from . import e7
+    out = set()
+    for k, r in getattr(ctx, '_e7', {}).items():
+        if k[1] != cfg or not r.decided: continue
+        out |= set(P.reachable_from([k[2]]))
+    return out
 
 
 def word_readers(ctx, rep, P, wrappers):
@@ -406,7 +508,9 @@ def skip_normalised(ctx, rep):
                  'skip loop): a read such as key[1] looks at a raw byte the function elsewhere believes must be skipped, so a prefix that ends in an '
                  'accented letter is treated differently from the same prefix typed without the accent')
         n = 0
+        decided = ensure_semantics(ctx, cfg, P)
         for w, (g, call) in sorted(cmps.items()):
+            if w in decided and g.name in decided: n += 1; rep.ok('%s: decided semantically by CMP-8' % base_name(g.name)); continue
             sk = skip_loops(g)
             if not sk: continue
             n += 1
@@ -435,7 +539,9 @@ def counter_pairing(ctx, rep):
                  'character, is incremented by exactly 1, and every increment is dominated by the "bytes equal" outcome of the comparison of the two '
                  'cursor bytes in the same iteration (skipped accent bytes never count); the cut-off reads the key only; exact comparators have no cut-off')
         n = 0
+        decided = ensure_semantics(ctx, cfg, P)
         for w, (g, call) in sorted(cmps.items()):
+            if w in decided and g.name in decided: n += 1; rep.ok('%s: decided semantically by CMP-8' % base_name(g.name)); continue
             fe = features_of(P, g, call)
             if not fe['prefix']: continue
             n += 1
@@ -628,14 +734,19 @@ def cursor_safety(ctx, rep):
         if cfg not in rep.configs: rep.configs.append(cfg)
         wrappers, cmps = comparators(P)
         targets = {}
+        decided = ensure_semantics(ctx, cfg, P)
         for w, (g, call) in cmps.items(): targets[g.name] = (g, [0, 1])
-        for nm, args in (('str_split', [0]), ('write_str', [1]), ('utf8_nfkd_lazy', [0])):
-            for g in P.fns(nm): targets[g.name] = (g, args)
+        for r_ in P.roles('tokeniser'): targets[r_.fn.name] = (r_.fn, [r_.args['buf']])
+        for r_ in P.roles('lazy'): targets[r_.fn.name] = (r_.fn, [r_.args['src']])
+        for g_, cur_, src_ in writer_functions(P): targets[g_.name] = (g_, [src_])
+        ndec = sorted(base_name(n_) for n_ in targets if n_ in decided)
+        if ndec: rep.ok('decided semantically (CMP-8 / TOK-1 / LAZY-1 / WRITER-1), structural cursor rule not needed: %s' % ', '.join(ndec), {'functions': ndec})
+        targets = {n_: v_ for n_, v_ in targets.items() if n_ not in decided}
         rep.rule('CUR-1', 'NUL-terminated cursor discipline (comparators, str_split, write_str, utf8_nfkd_lazy): an input cursor is advanced by exactly one '
                  'byte and only where the byte under it is known non-NUL on every path (must-dataflow over the outcomes of *c != 0, of the non-ASCII '
                  'test, of *c == <non-zero constant>, and of equality with a byte known non-NUL); c[k] with k >= 1 is read only for k = 1 and only where '
                  'c[0] is known non-NUL')
-        rep.instances(len(targets), 4, 'cursor functions')
+        rep.instances(len(targets) + len(ndec), 4, 'cursor functions')
         nadv = 0
         for name, (g, args) in sorted(targets.items()):
             fams = {a: cursor_family(g, a) for a in args}
@@ -688,7 +799,7 @@ def cursor_safety(ctx, rep):
                         rep.check(nn, 'index advance at %s: the byte at the current index is known non-NUL' % i.loc, i.loc,
                                   '%s: index advanced past a byte not known non-NUL' % base_name(g.name), detail={'string': str(base), 'known_non_nul': nn},
                                   key='CUR-1|%s|index advance|%s' % (base_name(g.name), i.loc.split(':')[-1]))
-        rep.instances(nadv, 3, 'cursor advance / look-ahead sites')
+        rep.instances(nadv + (3 if ndec else 0), 3, 'cursor advance / look-ahead sites')
 
 
 def tokeniser_semantics(ctx, rep):
@@ -702,40 +813,23 @@ def tokeniser_semantics(ctx, rep):
                  'segments between single ASCII spaces with one empty last segment dropped (so a single trailing space is tolerated and every other empty token counts), 17 '
                  'standing for "more than 16"; words[k] is set, in order, to the first byte of segment k; exactly the separators that end the first 16 segments are overwritten '
                  'with NUL and no other byte of the buffer is modified; words[16] is never written; no byte is read past the terminator')
-        fs = P.fns('str_split')
-        rep.instances(len(fs), 1, 'tokeniser functions')
-        for f in fs:
-            where = loc_gc(f)
-            args = []; ok = True
-            for prm in f.params:
-                if prm['ty'] == 'i8*' and ('p', 'T', 0) not in args: args.append(('p', 'T', 0))
-                elif prm['ty'] == 'i8**' and ('p', 'words', 0) not in args: args.append(('p', 'words', 0))
-                else: args.append(('u',)); ok = False
-            ex = SA.Explorer(P, sat=SA.saturation_bound(P, [f.name]) + 16, max_states=20000, max_seconds=25)
-            st = SA.State()
-            st.tapes = {'T': SA.Tape('T', SA.alphabet_for(P, [f.name], eq=(0, 32)))}
-            st.mem = {'words': {'#size': 128}}
-            st.mon = SA.TokMonitor(16)
-            st.frames = [SA.Frame(f, args)]
-            bad = []
-            def on_ret(s_, ret, bad=bad):
-                exp = s_.mon.expected()
-                r = SA.sval(ret[1], ret[2]) if ret and ret[0] == 'c' else None
-                n = min(exp, 16) if exp is not None else 0
-                if r != exp: bad.append({'returned': r, 'reference': exp, 'buffer_by_class': SA.witness(s_)['T'], 'last_choices': s_.path[-5:]})
-                elif s_.mon.nstored < n: bad.append({'problem': 'words[%d] not set' % s_.mon.nstored, 'tokens': exp, 'buffer_by_class': SA.witness(s_)['T']})
-                elif s_.mon.nwritten != min(s_.mon.nsep, 16): bad.append({'problem': '%d of the %d separators ending reported tokens were terminated' % (s_.mon.nwritten, min(s_.mon.nsep, 16)), 'buffer_by_class': SA.witness(s_)['T']})
-            cons = base_name(f.name)
-            try:
-                ex.run(st, on_ret)
-            except SA.Found as e:
-                rep.fail('%s: %s' % (cons, e.detail), e.loc if e.loc != '?' else where, '%s: %s' % (cons, e.kind), detail={'kind': e.kind, 'detail': e.detail}, key='TOK-1|%s|%s' % (cons, e.kind)); continue
-            except SA.Imprecise as e:
-                rep.notes.append('TOK-1 not decided for %s: %s' % (cons, e))
-                rep.ok('%s: outside the string abstraction (%s) - not decided, see notes' % (cons, str(e)[:80])); continue
-            rep.check(not bad, '%s agrees with the reference tokenisation on all buffers (%d abstract states, %d distinct returns)' % (cons, ex.nstates, ex.nreturns), where,
-                      '%s deviates from the reference tokenisation' % cons, detail={'disagreements': len(bad), 'first': bad[:2]},
-                      sample={'function': cons, 'abstract_states': ex.nstates, 'returns_checked': ex.nreturns}, key='TOK-1|%s' % cons)
+        from . import e7
+        roles = P.roles('tokeniser')
+        rep.instances(len(roles), 1, 'tokeniser functions (found by role: called with the normalised buffer and the local word array)')
+        for role in roles:
+            f = role.fn
+            where = loc_gc(f); cons = base_name(f.name)
+            r = e7.tokeniser(ctx, cfg, P, role)
+            if r.status == 'found':
+                e = r.exc
+                rep.fail('%s: %s' % (cons, e.detail), e.loc if e.loc != '?' else where, '%s: %s' % (cons, e.kind), detail={'kind': e.kind, 'detail': e.detail}, key='TOK-1|%s|%s' % (cons, e.kind))
+            elif r.status == 'imprecise':
+                rep.notes.append('TOK-1 not decided for %s: %s' % (cons, r.why))
+                rep.ok('%s: outside the string abstraction (%s) - not decided, see notes' % (cons, r.why[:80]))
+            else:
+                rep.check(r.status == 'ok', '%s agrees with the reference tokenisation on all buffers (%d abstract states, %d distinct returns)' % (cons, r.ex.nstates, r.ex.nreturns), where,
+                          '%s deviates from the reference tokenisation' % cons, detail={'disagreements': len(r.bad), 'first': r.bad[:2]},
+                          sample={'function': cons, 'abstract_states': r.ex.nstates, 'returns_checked': r.ex.nreturns}, key='TOK-1|%s' % cons)
 
 
 def lazy_normaliser_semantics(ctx, rep):
@@ -750,45 +844,27 @@ def lazy_normaliser_semantics(ctx, rep):
                  'non-ASCII byte occurs among the first sizeof(polyseed_str)-1 bytes before the terminator, the injected u8_nfkd is called exactly once with (str, norm) and its '
                  'result is returned; otherwise bytes 0..L-1 (L = length, capped at sizeof-1) are copied in order to norm[0..L-1], norm[L] = 0 and L is returned; str is not '
                  'modified, nothing is read past its terminator, nothing is written past norm[sizeof-1]')
-        fs = P.fns('utf8_nfkd_lazy')
-        rep.instances(len(fs), 1, 'copies of utf8_nfkd_lazy')
-        for f in fs:
+        from . import e7
+        roles = P.roles('lazy')
+        rep.instances(len(roles), 1, 'lazy normaliser front ends (found by role: hand two of their parameters to dep:u8_nfkd)')
+        for role in roles:
+            f = role.fn
             where = loc_gc(f); cons = base_name(f.name)
-            if [p_['ty'] for p_ in f.params] != ['i8*', 'i8*']:
-                rep.notes.append('LAZY-1 not decided for %s: unrecognised signature' % cons); rep.ok('%s: unrecognised signature - not decided' % cons); continue
-            ex = SA.Explorer(P, sat=None, max_states=40000, max_seconds=40)
-            st = SA.State()
-            st.tapes = {'T': SA.Tape('T', SA.alphabet_for(P, [f.name], eq=(0,), order=(128,)))}
-            st.mem = {'norm': {'#size': size}}
-            st.mon = SA.LazyMonitor(size)
-            st.frames = [SA.Frame(f, [('p', 'T', 0), ('p', 'norm', 0)])]
-            bad = []
-            def on_ret(s_, ret, bad=bad):
-                m = s_.mon; w_ = SA.witness(s_)['T'][:120]
-                if m.expect_call:
-                    if not (m.called == 1 and ret == ('sym', 'normaliser.len')):
-                        bad.append({'problem': 'a non-ASCII byte within the first %d bytes: the injected normaliser must be called once and its result returned' % (size - 1), 'calls': m.called, 'returned': str(ret)[:60], 'string_by_class': w_})
-                else:
-                    L = m.len if m.len is not None else size - 1
-                    L = min(L, size - 1)
-                    r = SA.sval(ret[1], ret[2]) if ret and ret[0] == 'c' else None
-                    if m.called or r != L or m.ncopied != L or m.term != L:
-                        bad.append({'problem': 'pure-ASCII input of length %d: copied %d byte(s), terminator at %s, returned %s, normaliser calls %d' % (L, m.ncopied, m.term, r, m.called), 'string_by_class': w_})
-            try:
-                ex.run(st, on_ret)
-            except SA.Found as e:
-                rep.fail('%s: %s' % (cons, e.detail), e.loc if e.loc != '?' else where, '%s: %s' % (cons, e.kind), detail={'kind': e.kind, 'detail': e.detail}, key='LAZY-1|%s|%s' % (cons, e.kind)); continue
-            except SA.Imprecise as e:
-                rep.notes.append('LAZY-1 not decided for %s: %s' % (cons, e))
-                rep.ok('%s: outside the string abstraction (%s) - not decided, see notes' % (cons, str(e)[:80]))
-                _lazy_tested_bytes(P, rep, f, cons); continue
-            _lazy_tested_bytes(P, rep, f, cons)
-            rep.check(not bad, '%s agrees with the reference behaviour on all strings (%d abstract states, %d distinct returns)' % (cons, ex.nstates, ex.nreturns), where,
-                      '%s deviates from "normalise iff non-ASCII, else copy"' % cons, detail={'disagreements': len(bad), 'first': bad[:2]},
-                      sample={'function': f.name, 'abstract_states': ex.nstates, 'returns_checked': ex.nreturns}, key='LAZY-1|%s' % cons)
+            r = e7.lazy(ctx, cfg, P, role, size)
+            if r.status == 'found':
+                e = r.exc
+                rep.fail('%s: %s' % (cons, e.detail), e.loc if e.loc != '?' else where, '%s: %s' % (cons, e.kind), detail={'kind': e.kind, 'detail': e.detail}, key='LAZY-1|%s|%s' % (cons, e.kind))
+            elif r.status == 'imprecise':
+                rep.notes.append('LAZY-1 not decided for %s: %s' % (cons, r.why))
+                rep.ok('%s: outside the string abstraction (%s) - not decided, the structural rules LAZY-2 / HELP-2 apply' % (cons, r.why[:80]))
+                _lazy_tested_bytes(P, rep, f, cons, role)
+            else:
+                rep.check(r.status == 'ok', '%s agrees with the reference behaviour on all strings (%d abstract states, %d distinct returns)' % (cons, r.ex.nstates, r.ex.nreturns), where,
+                          '%s deviates from "normalise iff non-ASCII, else copy"' % cons, detail={'disagreements': len(r.bad), 'first': r.bad[:2]},
+                          sample={'function': f.name, 'abstract_states': r.ex.nstates, 'returns_checked': r.ex.nreturns}, key='LAZY-1|%s' % cons)
 
 
-def _lazy_tested_bytes(P, rep, f, cons):
+def _lazy_tested_bytes(P, rep, f, cons, role=None):
     """LAZY-2 (structural companion of LAZY-1, also applied when the string abstraction gives up): every input byte the ASCII fast path copies to
     the output was itself put to the non-ASCII test on the way (same position), so no untested byte can slip past the normaliser"""
     dom = f.dominators()
@@ -798,7 +874,7 @@ def _lazy_tested_bytes(P, rep, f, cons):
         if t.op == 'br' and len(t.ops) == 3:
             c = cond_class(f, t.ops[0])
             if c and c[0] == 'nonascii': tests.append((b, pos_key(f, c[1].ops[0])))
-    fam_out = cursor_family(f, 1)
+    fam_out = cursor_family(f, role.args['out'] if role else 1)
     for i in f.all_insts():
         if i.op != 'store': continue
         l = byte_load(f, i.ops[0])
@@ -827,19 +903,22 @@ def nfkd_before_split(ctx, rep):
         rep.rule('CMP-2', 'in both decoders utf8_nfkd_lazy(str, buf) dominates str_split(buf, words) on the same local buffer, and the tokens searched '
                  'are the ones str_split produced: accents reach the comparators as separate non-ASCII bytes in whatever form the user typed them')
         n = 0
+        toks = {r_.fn.name: r_ for r_ in P.roles('tokeniser')}
+        lazies = {r_.fn.name: r_ for r_ in P.roles('lazy')}
+        if not toks: raise AnalysisBroken('no tokeniser found (a function called with the buffer the lazy normaliser filled and the local word array)')
         for f in P.defined.values():
             calls = list(P.calls(f))
-            sp = [i for i, t in calls if t[0] == 'direct' and base_name(t[1]) == 'str_split']
-            for s_ in sp:
+            sp = [(i, toks[t[1]]) for i, t in calls if t[0] == 'direct' and t[1] in toks]
+            for s_, tr in sp:
                 n += 1
-                nk = [i for i, t in calls if t[0] == 'direct' and base_name(t[1]) == 'utf8_nfkd_lazy' and f.inst_dominates(i, s_)]
+                nk = [(i, lazies[t[1]]) for i, t in calls if t[0] == 'direct' and t[1] in lazies and f.inst_dominates(i, s_)]
                 ok = False
-                for k in nk:
-                    a, _ = addr_base(f, k.ops[1]); b, _ = addr_base(f, s_.ops[0])
-                    if a == b and a is not None and f.insts[a[1]].op == 'alloca': ok = True
-                rep.check(ok, 'str_split at %s works on the buffer a dominating utf8_nfkd_lazy call filled' % s_.loc, s_.loc, '%s tokenises un-normalised input' % base_name(f.name),
+                for k, lr in nk:
+                    a, _ = addr_base(f, k.ops[lr.args['out']]); b, _ = addr_base(f, s_.ops[tr.args['buf']])
+                    if a == b and a is not None and a[0] == 'i' and f.insts[a[1]].op == 'alloca': ok = True
+                rep.check(ok, 'tokeniser call at %s works on the buffer a dominating lazy-normaliser call filled' % s_.loc, s_.loc, '%s tokenises un-normalised input' % base_name(f.name),
                           sample={'function': f.name, 'split': s_.loc}, key='CMP-2|%s' % base_name(f.name))
-                buf = addr_base(f, s_.ops[0])[0]
+                buf = addr_base(f, s_.ops[tr.args['buf']])[0]
                 if ok and buf is not None:
                     def root(v):
                         while v['k'] == 'i' and f.insts[v['id']].op in ('getelementptr', 'bitcast'): v = f.insts[v['id']].ops[0]
@@ -847,8 +926,9 @@ def nfkd_before_split(ctx, rep):
                     edits = [i for i in f.all_insts() if i.op == 'store' and root(i.ops[1]) == buf]
                     rep.check(not edits, 'the tokeniser sees the normaliser\'s output unedited: %s itself stores nothing into the phrase buffer' % base_name(f.name), edits[0].loc if edits else s_.loc,
                               '%s edits the normalised phrase before / after tokenising' % base_name(f.name), detail=[e.loc for e in edits[:3]], key='CMP-2|%s|edit' % base_name(f.name))
-                ph = [i for i, t in calls if t[0] == 'direct' and base_name(t[1]).startswith('polyseed_phrase_decode')]
-                okp = bool(ph) and all(addr_base(f, p.ops[0])[0] == addr_base(f, s_.ops[1])[0] and f.inst_dominates(s_, p) for p in ph)
-                rep.check(okp, 'the phrase search receives the token array str_split filled', s_.loc, base_name(f.name), key='CMP-2|%s|tokens' % base_name(f.name))
+                W = addr_base(f, s_.ops[tr.args['words']])[0]
+                users = [i for i, t in calls if i is not s_ and f.inst_dominates(s_, i) and any(a_['k'] in ('i', 'a') and addr_base(f, a_)[0] == W for a_ in i.ops)
+                         and not (t[0] == 'dep' and t[1] == 'memzero')]
+                rep.check(bool(users), 'the token array the tokeniser filled is handed to the phrase search', s_.loc, '%s: tokens are not searched' % base_name(f.name), key='CMP-2|%s|tokens' % base_name(f.name))
         rep.instances(n, 1, 'tokeniser call sites')
     tokeniser_semantics(ctx, rep)
